@@ -156,4 +156,13 @@ def textMethod : List Ev → Str
   | .raw t :: r => t ++ textMethod r
   | _ :: r => textMethod r
 
+/-- FormatterToText on a stream with output encoding of largest code point `maxc`: with `reports` (repaired source:
+`characters` asks `XalanOutputStream::canTranscodeTo` and raises `UnrepresentableCharacterException`) an
+unrepresentable character is an error (`none`); without, the transcoder silently substitutes U+001A. -/
+def textMethodEnc (reports : Bool) (maxc : Nat) (evs : List Ev) : Option Str :=
+  let t := textMethod evs
+  if t.all (· ≤ maxc) then some t
+  else if reports then none
+  else some (t.map fun c => if c ≤ maxc then c else 0x1A)
+
 end XalanModel.C08
